@@ -43,6 +43,24 @@ ECOLS = ['atom index', 'start site', 'destination site', 'start inner site', 'de
 JCOLS = ['atom index', 'start site', 'destination site', 'start time', 'stop time']
 
 _mon = Monitor()
+_auto: list = []
+
+
+def auto_pass(rep_, traj=None):
+    """Site assignment with the automatically chosen radius (site_radius omitted)."""
+    from pymatgen.core import Structure
+
+    if traj is None:
+        traj = gen.make_trajectory(rep_.m, gen.species_objects(rep_.names), rep_.coords, time_step=rep_.dt, metadata={'temperature': rep_.temp})
+    sites = Structure(lattice=traj.get_lattice(), species=['Li'] * len(rep_.site_frac), coords=rep_.site_frac, labels=list(rep_.labels))
+    del _auto[:]
+    try:
+        tr = traj.transitions_between_sites(sites=sites, floating_specie='Li', site_inner_fraction=rep_.f)
+    except ValueError as exc:
+        if 'too close' in str(exc) or 'need at least one array' in str(exc):
+            return {'error': str(exc)[:40], 'radius': _auto[-1] if _auto else None}
+        raise
+    return {'states': np.asarray(tr.states).copy(), 'inner': np.asarray(tr.inner_states).copy(), 'radius': _auto[-1] if _auto else None}
 
 
 def units(tier):
@@ -57,6 +75,9 @@ def setup(ctx):
 
     _mon.attach(Trajectory, 'transitions_between_sites', label='Trajectory.transitions_between_sites')
     _mon.attach(Jumps, '__init__', label='Jumps.__init__')
+    import gemdat.transitions as gt
+
+    _mon.attach(gt, '_compute_site_radius', post=lambda result, args, kwargs: _auto.append(float(result)), optional=True, label='_compute_site_radius')
     _mon.attach(Jumps, 'collective', label='Jumps.collective')
     _mon.attach(rdf, 'radial_distribution', label='rdf.radial_distribution')
     _mon.attach(rdf, 'radial_distribution_between_species', label='rdf.radial_distribution_between_species')
@@ -349,6 +370,31 @@ def run_unit(unit, rng, ctx):
                 ctx.count('volume_comparison_skipped_voxel_edge', skip_vol)
             compare(base, other, name, amap_, smap_, shift, ctx, what, wit, skip_rdf, site_perm, skip_vol)
             ctx.count(f'transformations:{name}')
+        # the same invariances with the automatically chosen site radius (site_radius omitted)
+        if unit['i'] % 2 == 1:
+            ab = auto_pass(base_rep)
+            dsite = geom.min_image(sys_.matrix, base_rep.site_frac, base_rep.site_frac)[np.triu_indices(S, k=1)]
+            ctx.count('auto_radius_limited_by_site_separation', ab.get('radius') is not None and ab['radius'] < 0.5 * dsite.min())
+            for name, rep, amap_, smap_, shift, site_perm in reps:
+                ao = auto_pass(rep)
+                w = f'{what} [{name}, automatic radius]'
+                if ab.get('radius') is not None and ao.get('radius') is not None:
+                    ctx.check(feq(ab['radius'], ao['radius'], 1e-9), f'{w}: automatically chosen site radius {ao["radius"]!r} vs {ab["radius"]!r} in the original', wit)
+                if 'error' in ab or 'error' in ao:
+                    ctx.check(('error' in ab) == ('error' in ao), f'{w}: one representation raises ({ao.get("error")!r}), the other does not ({ab.get("error")!r})', wit)
+                    continue
+                inv_s = {-1: -1, **{int(old): new for new, old in enumerate(smap_)}}
+                same = all(np.array_equal(ao[key], np.vectorize(lambda s_: inv_s[int(s_)])(ab[key])[:, amap_]) for key in ('states', 'inner'))
+                if not same and ab.get('radius') is not None:
+                    rr = float(ab['radius'])
+                    kb = classify_k1(replace(base_rep, radii=np.full(S, rr), arg=rr), ab, ctx, what)
+                    ko = classify_k1(replace(rep, radii=np.full(S, rr), arg=rr), ao, ctx, what)
+                    if (kb[0] + ko[0]) > 0 and (kb[1] + ko[1]) == 0:
+                        ctx.known_finding(K1, f'{w}: state entries differ; all explained by PeriodicKDTree misses ({kb[0]} in the original, {ko[0]} in the transformed representation)')
+                        ctx.decided()
+                        continue
+                ctx.check(same, f'{w}: site states differ beyond relabelling', wit)
+                ctx.count(f'auto_radius_transformations:{name}')
     ctx.count('atom_frames_moved_through_a_face_by_translation', crossed)
     ctx.count(f'lattice:{sys_.kind}')
     ctx.count('jumps_in_original', len(base['jumps']))
